@@ -835,6 +835,23 @@ def h_into(I, st, callee, target, args, ctx):
             return [(st, v)]
         if via.get("local") and via["def"] in I.f.bodies:
             return I.call_local(st, I.f.bodies[via["def"]], [v], ctx)
+        selft = via.get("impl_self") or ""
+        if via["def"].startswith("ais::sentence::") and "AisSentence" in selft and isinstance(v, VOpaque) and ("Option<" in selft or "Result<" in selft):
+            # the library's From<AisFragments> for Option / Result<AisSentence>, seen from the tool:
+            # Complete -> Some / Ok(sentence), Incomplete -> None / Err (this contract is what C05 checks
+            # on the library side)
+            frag = I.f.adts.get("ais::sentence::AisFragments")
+            if frag and frag.get("variants"):
+                ci = [i for i, var in enumerate(frag["variants"]) if var["name"] == "Complete"][0]
+                d = I.discriminant(st, v)
+                datom = lin_of(st, d).single_atom()[0]
+                out = []
+                for s2 in st.copy().assume(("in", datom, IntSet.of(ci)), True):
+                    payload = VOpaque(v.tag + "#%d.0" % ci)
+                    out.append((s2, mk_some(payload) if "Option<" in selft else mk_ok(payload)))
+                for s2 in st.copy().assume(("in", datom, IntSet.of(ci)), False):
+                    out.append((s2, NONE if "Option<" in selft else mk_err(VOpaque("Incomplete message"))))
+                return out
     dest = ctx["term"]["dest"]
     ty = ctx["body"]["locals"][dest["l"]] if not dest["p"] else None
     # the conversion's own target type, from its generic arguments: <Src as Into<T>>::into / <T as From<Src>>::from
@@ -844,7 +861,7 @@ def h_into(I, st, callee, target, args, ctx):
         tgt = ga[1]["ty"]
     elif callee["def"].endswith("From::from") and len(ga) >= 1 and "ty" in ga[0]:
         tgt = ga[0]["ty"]
-    if tgt is not None and I.f.types[tgt]["k"] == "param":
+    if tgt is not None and (I.f.types[tgt]["k"] == "param" or I.f.types[tgt]["k"] in ("int", "float")):
         ty = tgt
     if ty is not None and I.f.types[ty]["k"] == "param":
         # `T::from(x)` / `x.into()` inside a generic helper: T is known from the call's generic arguments
@@ -1031,6 +1048,11 @@ def h_res_unwrap(I, st, callee, target, args, ctx):
 @ext("core:Result<T, E>::map")
 def h_res_map(I, st, callee, target, args, ctx):
     v, f = args
+    if isinstance(v, VOpaque):
+        out = []
+        for s2, r in opaque_result_cases(I, st, v):
+            out += h_res_map(I, s2, callee, target, [r, f], ctx)
+        return out
     if isinstance(v, VAdt) and v.adt == RESULT:
         if v.variant == 1:
             return [(st, v)]
@@ -1041,6 +1063,11 @@ def h_res_map(I, st, callee, target, args, ctx):
 @ext("core:Result<T, E>::map_err")
 def h_res_map_err(I, st, callee, target, args, ctx):
     v, f = args
+    if isinstance(v, VOpaque):
+        out = []
+        for s2, r in opaque_result_cases(I, st, v):
+            out += h_res_map_err(I, s2, callee, target, [r, f], ctx)
+        return out
     if isinstance(v, VAdt) and v.adt == RESULT:
         if v.variant == 0:
             return [(st, v)]
@@ -1686,6 +1713,9 @@ def opaque_loop(I, st, r, it, ctx):
 def h_fold(I, st, callee, target, args, ctx):
     it, init, f = args
     it = deref(I, st, it)
+    by_value = False
+    if isinstance(it, VParser) and it.kind == "it_copied" and isinstance(it.args[0], VIter):
+        it, by_value = it.args[0], True
     if not isinstance(it, VIter):
         raise Unanalysable("fold over %r" % (it,))
     # interpret the closure once on two generic atoms and record Fold(slice, init, op)
@@ -1695,7 +1725,7 @@ def h_fold(I, st, callee, target, args, ctx):
     c = I.new_cell(st, el)
     fv = deref(I, st, f)
     # which parameter form does the closure take: |acc, &item| -> arg is a reference
-    outs = I.apply_callable(st, f, [acc, VRef(c, ())], ctx)
+    outs = I.apply_callable(st, f, [acc, el if by_value else VRef(c, ())], ctx)
     if len(outs) != 1:
         raise Unanalysable("fold closure forks")
     s2, r = outs[0]
@@ -2974,3 +3004,204 @@ def h_heapless_from_slice(I, st, callee, target, args, ctx):
                 return [(st, mk_err(UNIT))]
             return [(st, mk_ok(VSeq(("slice", v.buf, v.start, v.len), cap)))]
     raise Unanalysable("heapless from_slice %r -> %s" % (v, t["text"]))
+
+
+# ---- a few more nom items ---------------------------------------------------------------------------
+
+EXT["nom::combinator::consumed"] = _mk("consumed")
+CONTRACT["nom::combinator::consumed"] = "total"
+EXT["nom::combinator::not"] = _mk("not")
+CONTRACT["nom::combinator::not"] = "total"
+
+
+@parser("consumed")
+def p_consumed(I, st, pv, inp, ctx):
+    out = []
+    for s2, r in run(I, st, pv.args[0], inp, ctx):
+        if is_ok(r) and isinstance(inp, VSlice):
+            rest, v = r.fields[0].items
+            if isinstance(rest, VSlice) and rest.buf == inp.buf:
+                out.append((s2, ok_pair(rest, VTuple((VSlice(inp.buf, inp.start, rest.start - inp.start), v)))))
+                continue
+            raise Unanalysable("consumed(): remainder is not a suffix of the input")
+        out.append((s2, r))
+    return out
+
+
+@parser("not")
+def p_not(I, st, pv, inp, ctx):
+    out = []
+    n0 = len(st.events)
+    for s2, r in run(I, st, pv.args[0], inp, ctx):
+        if is_ok(r):
+            _abandon(s2, n0)
+            out.append((s2, nom_err(I, "Error", VOpaque("Not"))))
+        elif err_kind(I, r) == "Error":
+            _abandon(s2, n0)
+            out.append((s2, ok_pair(inp, UNIT)))
+        else:
+            out.append((s2, r))
+    return out
+
+
+@ext("nom::combinator::success")
+def h_success(I, st, callee, target, args, ctx):
+    return [(st, VParser("success", args, {"site": (ctx["body"]["def"], ctx["bb"]), "loc": ctx["term"].get("loc"), "generics": callee.get("args")}))]
+
+
+@parser("success")
+def p_success(I, st, pv, inp, ctx):
+    return [(st, ok_pair(inp, pv.args[0]))]
+
+
+@ext("nom::combinator::rest")
+def h_rest(I, st, callee, target, args, ctx):
+    sl = _byte_input(args[0])
+    total = sl.start + sl.len
+    st.event("g", "take_rest", None, sl.buf, sl.start, total)
+    return [(st, ok_pair(VSlice(sl.buf, total, Lin.const(0)), sl))]
+
+
+@ext("nom::combinator::eof")
+def h_eof(I, st, callee, target, args, ctx):
+    sl = args[0]
+    if isinstance(sl, VTuple):
+        s_, o = cursor_parts(I, st, sl)
+        empty = decide_le0(st, s_.len.scale(8) - o, "eof")
+    else:
+        sl = _byte_input(sl)
+        empty = decide_le0(st, sl.len, "eof")
+    if empty:
+        return [(st, ok_pair(args[0], args[0]))]
+    return [(st, nom_err(I, "Error", VOpaque("Eof")))]
+
+
+@ext("nom::bits::complete::bool")
+def h_bits_bool(I, st, callee, target, args, ctx):
+    sl, o = cursor_parts(I, st, args[0])
+    need = 1 + o
+    eof = decide_le0(st, sl.len.scale(8) - need + 1, "take eof")
+    if eof:
+        st.event("take_eof", sl.buf, (sl.start.scale(8) + o).key(), 1, (ctx["body"]["def"], ctx["bb"]))
+        return [(st, nom_err(I, "Error", VOpaque("Eof")))]
+    pos = sl.start.scale(8) + o
+    posk = pos.c if pos.is_const() else pos.key()
+    st.event("take", sl.buf, posk, 1, (8, False), (ctx["body"]["def"], ctx["bb"]))
+    cnt = need // 8
+    rest = VTuple((VSlice(sl.buf, sl.start + cnt, sl.len - cnt), mk_const(need % 8, 64, False)))
+    return [(st, ok_pair(rest, VBool(("in", ("bits", sl.buf, posk, 1), IntSet.of(1)))))]
+
+
+@ext("nom::character::complete::u8")
+def h_nom_u8(I, st, callee, target, args, ctx):
+    """decimal u8: digit1, then the value must fit (the same decision `u8::from_str` makes on digits)"""
+    out = []
+    for s2, r in h_digit1(I, st, callee, target, args, ctx):
+        if not is_ok(r):
+            out.append((s2, r))
+            continue
+        rest, digits = r.fields[0].items
+        term = ("utf8", ("slice", digits.buf, digits.start.key(), digits.len.key()))
+        s_ok, s_no = s2, s2.copy()
+        s_ok.pc.opq[("from_str_ok", term, 8)] = True
+        s_no.pc.opq[("from_str_ok", term, 8)] = False
+        s_ok.event("from_str", term, 8, True)
+        s_no.event("from_str", term, 8, False)
+        out.append((s_ok, ok_pair(rest, VInt(8, False, lin=Lin.atom(("parsed", term, 8, 0, 255))))))
+        out.append((s_no, nom_err(I, "Error", VOpaque("Digit"))))
+    return out
+
+
+@ext("core::iter::traits::iterator::Iterator::copied", "core::iter::traits::iterator::Iterator::cloned")
+def h_iter_copied(I, st, callee, target, args, ctx):
+    it = deref(I, st, args[0])
+    if isinstance(it, VIter):
+        return [(st, VParser("it_copied", [it], {}))]
+    raise Unanalysable("copied() over %r" % (it,))
+
+
+def _op_trait(op):
+    def h(I, st, callee, target, args, ctx):
+        a, b = deref(I, st, args[0]), deref(I, st, args[1])
+        return [(st, I.binop(st, op, a, b))]
+    return h
+
+
+for _n, _op in (("bit::BitXor::bitxor", "BitXor"), ("bit::BitAnd::bitand", "BitAnd"), ("bit::BitOr::bitor", "BitOr")):
+    EXT["core::ops::" + _n] = _op_trait(_op)
+    CONTRACT["core::ops::" + _n] = "total"
+
+
+def _is_negative(I, st, callee, target, args, ctx):
+    v = args[0]
+    if not isinstance(v, VInt):
+        raise Unanalysable("is_negative on %r" % (v,))
+    neg = target["def"].endswith("is_negative")
+    r = I.binop(st, "Lt" if neg else "Gt", v, mk_const(0, v.w, v.s))
+    return [(st, r)]
+
+
+for _t in ("i8", "i16", "i32", "i64", "isize"):
+    EXT["core:%s::is_negative" % _t] = _is_negative
+    EXT["core:%s::is_positive" % _t] = _is_negative
+    CONTRACT["core:%s::is_negative" % _t] = "total"
+    CONTRACT["core:%s::is_positive" % _t] = "total"
+
+
+@ext("core:Result<T, E>::is_ok_and", "core:Result<T, E>::is_err_and")
+def h_res_is_ok_and(I, st, callee, target, args, ctx):
+    v, f = args
+    want_ok = target["def"].endswith("is_ok_and")
+    if isinstance(v, VAdt) and v.adt == RESULT:
+        if (v.variant == 0) != want_ok:
+            return [(st, VBool(False))]
+        return I.apply_callable(st, f, [v.fields[0]], ctx)
+    raise Unanalysable("Result::is_ok_and on %r" % (v,))
+
+
+@ext("core::iter::traits::iterator::Iterator::try_fold")
+def h_try_fold(I, st, callee, target, args, ctx):
+    """try_fold over a range with concrete bounds: the closure is applied index by index; the first
+    Err / None ends the fold"""
+    it, init, f = args
+    r = it
+    itv = I.read_ref(st, it) if isinstance(it, VRef) else it
+    if not (isinstance(itv, VAdt) and itv.adt.endswith("ops::range::Range")):
+        raise Unanalysable("try_fold over %r" % (itv,))
+    lo, hi = itv.fields
+    ll, lh = lin_of(st, lo), lin_of(st, hi)
+    if not ll.is_const():
+        raise Unanalysable("try_fold over a range with a symbolic start")
+    if not lh.is_const():
+        vals = st.lin_set(lh)
+        sa = lh.single_atom()
+        if vals.is_single():
+            lh = Lin.const(vals.single())
+        elif sa and abs(sa[1]) == 1 and vals.size() <= 64:
+            at, k, c = sa
+            raise NeedSplit(at, [IntSet.of((x - c) * k) for x in vals.values()])
+        else:
+            raise Unanalysable("try_fold over a range with a symbolic end")
+    if lh.c - ll.c > 64:
+        raise Unanalysable("try_fold over more than 64 indices")
+    states = [(st, init)]
+    done = []
+    for i in range(ll.c, lh.c):
+        nxt = []
+        for s2, acc in states:
+            for s3, rv in I.apply_callable(s2, f, [acc, mk_const(i, lo.w, lo.s)], ctx):
+                if isinstance(rv, VAdt) and rv.adt == RESULT:
+                    (nxt if rv.variant == 0 else done).append((s3, rv.fields[0] if rv.variant == 0 else rv))
+                elif isinstance(rv, VAdt) and rv.adt == OPTION:
+                    (nxt if rv.variant == 1 else done).append((s3, rv.fields[0] if rv.variant == 1 else rv))
+                else:
+                    raise Unanalysable("try_fold closure returned %r" % (rv,))
+        states = nxt
+    # which Try type: decided by the closure's results; with zero iterations use the destination type
+    dest = ctx["term"]["dest"]
+    ty = I.f.types[ctx["body"]["locals"][dest["l"]]] if not dest["p"] else None
+    is_opt = ty is not None and ty.get("def") == OPTION
+    out = list(done)
+    for s2, acc in states:
+        out.append((s2, mk_some(acc) if is_opt else mk_ok(acc)))
+    return out
